@@ -397,7 +397,7 @@ func genVals(r *rand.Rand, vars []envVar) map[string]*val.Val {
 }
 
 var targetTypes = []*T{tNum, tNum, tStr, tBool, tBool, tTime, tList(tNum), tList(tStr), tMap(tStr, tNum), tMap(tNum, tStr),
-	tObj(TF{"a", tNum}, TF{"b", tStr}), tList(tObj(TF{"a", tNum}, TF{"b", tStr})), tList(tList(tNum))}
+	tObj(TF{"a", tNum}, TF{"b", tStr}), tList(tObj(TF{"a", tNum}, TF{"b", tStr})), tList(tList(tNum)), tList(tList(tStr)), tMap(tStr, tList(tStr))}
 
 var fixedPrograms = []string{
 	`[{a:1,b:"x"},{b:"y",a:2}][1].a`,
@@ -439,6 +439,10 @@ var fixedPrograms = []string{
 	`0x10 + 0b11 + 0o7`,
 	`round(2.5) + round(0-2.5) + floor(0-0.5) + ceil(0.5)`,
 	`intersect([1,2,2,3],[3,2]) == [2,3]`,
+	`len(union([["a, b"]], [["a", "b"]]))`, `intersect([["a, b"]], [["a", "b"]])`, `diff([["x", "y: z"]], [["x, y", "z"]])`,
+	`len(union([["k": "x, \"y\": z"]], [["k": "x", "y": "z"]]))`, `union([{a: "1, b: 2"}], [{a: "1"}])`,
+	`isset([0: "zero"], ceil(0-0.5))`, `get([0: "zero"], round(0-0.2), "dflt")`, `[0: "zero"][0*(0-1)]`, `len([0: "a", 0*(0-1): "b"])`,
+	`string([4611686018427387904: 1])`, `[4611686018427387904: 1, 4611686018427388000: 2]`,
 	`diff(["a","b"],["b"])`,
 	`["k1":1] == ["k1":1.0000000001]`,
 	`(0-7) % 3`,
